@@ -127,6 +127,13 @@ type world struct {
 	root *mfs.Root
 	mu   sync.Mutex
 	pub  cid.Cid
+
+	// the one write descriptor kept open across ops
+	fd     mfs.FileDescriptor
+	fdFile *mfs.File
+	fdPath []string
+	fdAtt  bool // fdFile was met as a cached child on the last walk from the root
+	fdSeen bool
 }
 
 func (w *world) readN(nd ipld.Node) (*node, error) {
@@ -251,6 +258,9 @@ func (w *world) readL(f mfs.FSNode, sb *strings.Builder, o *vh.Out) (*node, erro
 			sb.WriteByte('*')
 			dn.ser(sb)
 			sb.WriteByte(':')
+			if cf, ok := e.Cached.(*mfs.File); ok && w.fdFile != nil && cf == w.fdFile {
+				w.fdSeen = true
+			}
 			cv, err := w.readL(e.Cached, sb, o)
 			if err != nil {
 				return nil, err
@@ -627,7 +637,9 @@ func gen(r *vh.Rand, tier string, n int, emit func(vh.Case)) {
 		g := &genTree{t: &node{dir: true, kids: map[string]*node{}}, r: cr}
 		maxLinks := vh.Pick(cr, []int{0, 0, 2, 3})
 		shard := vh.Pick(cr, []int{0, 0, 120, 256})
-		c.Ops = append(c.Ops, fmt.Sprintf("cfg %d %d", maxLinks, shard))
+		c.Ops = append(c.Ops, fmt.Sprintf("cfg %d %d %d", maxLinks, shard, b2i(cr.Chance(1, 8))))
+		fdOpen := false      // the generator's belief: a descriptor is open ...
+		var fdAt []string    // ... on this path
 		nops := cr.Range(8, 40)
 		if tier == "thorough" {
 			nops = cr.Range(8, 70)
@@ -638,6 +650,75 @@ func gen(r *vh.Rand, tier string, n int, emit func(vh.Case)) {
 				k = cr.Intn(30) // build some structure first
 			}
 			var op string
+			if fdOpen && cr.Chance(2, 5) {
+				// work on the open descriptor, or on the entries above it
+				switch x := cr.Intn(20); {
+				case x < 7:
+					op = fmt.Sprintf("fdwrite %d %s", cr.Intn(5), vh.Hex(cr.Bytes(cr.Range(1, 4))))
+				case x < 8:
+					op = fmt.Sprintf("fdtrunc %d", cr.Intn(5))
+				case x < 10:
+					op = "fdflush"
+				case x < 14:
+					op, fdOpen = "fdclose", false
+				case x < 16 && len(fdAt) > 0:
+					anc := fdAt[:cr.Range(1, len(fdAt))]
+					dst := g.path(vh.Pick(cr, []string{"newdir", "dir", "newfile"}))
+					op = fmt.Sprintf("mv %s %s", join(anc), dst)
+					specMv(g.t, parsePath(join(anc)), parsePath(dst))
+				case x < 17 && len(fdAt) > 0:
+					anc := fdAt[:cr.Range(1, len(fdAt))]
+					op = fmt.Sprintf("rm %s", join(anc))
+					specRm(g.t, parsePath(join(anc)))
+				case x < 18:
+					m := vh.Pick(cr, modes)
+					op = fmt.Sprintf("chmod %s %o", join(fdAt), m)
+					if n, cl := g.t.walk(fdAt); cl == "ok" {
+						n.mode = uint32(m)
+					}
+				case x < 19 && len(fdAt) > 1:
+					op = fmt.Sprintf("flush %s", join(fdAt[:cr.Intn(len(fdAt))]))
+				default:
+					op = fmt.Sprintf("read %s", join(fdAt))
+				}
+				c.Ops = append(c.Ops, op)
+				continue
+			}
+			if k >= 30 && cr.Chance(1, 9) {
+				switch x := cr.Intn(12); {
+				case x < 5:
+					p := g.path("file")
+					op = fmt.Sprintf("fdopen %s %d", p, cr.Intn(2))
+					if n, cl := g.t.walk(parsePath(p).comps); cl == "ok" && !n.dir && !fdOpen {
+						fdOpen, fdAt = true, parsePath(p).comps
+					}
+				case x < 7:
+					p := strings.TrimSuffix(g.path("dir"), "/")
+					if p == "" {
+						p = "/"
+					}
+					name := g.newName(len(parsePath(p).comps), true)
+					op = fmt.Sprintf("dmkdir %s %s", p, name)
+					if d, cl := g.t.walkDir(parsePath(p).comps); cl == "ok" {
+						if _, ok := d.kids[name]; !ok {
+							d.kids[name] = &node{dir: true, kids: map[string]*node{}}
+						}
+					}
+				case x < 8:
+					op = "rflush"
+				case x < 9:
+					op = "memfree"
+				case x < 11:
+					op = "reopen"
+				default:
+					op = vh.Pick(cr, []string{"fdwrite 0 aa", "fdflush", "fdclose"})
+					if op == "fdclose" {
+						fdOpen = false
+					}
+				}
+				c.Ops = append(c.Ops, op)
+				continue
+			}
 			switch {
 			case k < 14:
 				p := g.path(vh.Pick(cr, []string{"newdir", "newdir", "newdir", "dir", "file"}))
@@ -784,14 +865,47 @@ func exec(c vh.Case, o *vh.Out) {
 	// emit the op's result followed by the full live state; returns the view
 	emit := func(res string, extra string) *node {
 		var sb strings.Builder
+		w.fdSeen = false
 		v, err := w.readL(w.root.GetDirectory(), &sb, o)
 		if err != nil {
 			o.Emit("%s | state-unreadable:%s", res, strings.ReplaceAll(err.Error(), " ", "_"))
 			return nil
 		}
-		o.Emit("%s | %s%s", res, sb.String(), extra)
+		fds := "-"
+		if w.fd != nil {
+			// attached = still the object cached under its path; once detached it never comes back
+			w.fdAtt = w.fdAtt && w.fdSeen
+			sz, err := w.fd.Size()
+			if err != nil {
+				o.Fail("fd-size", "%v", err)
+			}
+			a := "d"
+			if w.fdAtt {
+				a = "a"
+			}
+			fds = fmt.Sprintf("%s:%s:%d", a, join(w.fdPath), sz)
+		}
+		o.Emit("%s | %s%s | fd=%s", res, sb.String(), extra, fds)
 		return v
 	}
+	var pf mfs.PubFunc
+	var rootOpts []mfs.Option
+	nopub := false
+	// the monitor's descriptor: bytes written through it reach the file at its path when it is flushed,
+	// as long as neither that entry nor an entry above it was removed or replaced
+	type specFd struct {
+		path  []string
+		buf   []byte
+		sync  bool
+		clean bool
+		alive bool
+	}
+	var sfd *specFd
+	defer func() {
+		if w.fd != nil {
+			w.fd.Close()
+		}
+	}()
 
 	for idx, line := range c.Ops {
 		f := strings.Fields(line)
@@ -809,12 +923,19 @@ func exec(c vh.Case, o *vh.Out) {
 				opts = append(opts, mfs.WithHAMTShardingSize(sh))
 				o.Kind("shardsize")
 			}
-			rt, err := mfs.NewEmptyRoot(ctx, w.ds, func(_ context.Context, c cid.Cid) error {
-				w.mu.Lock()
-				w.pub = c
-				w.mu.Unlock()
-				return nil
-			}, nil, opts...)
+			nopub = len(f) > 3 && f[3] == "1"
+			if !nopub {
+				pf = func(_ context.Context, c cid.Cid) error {
+					w.mu.Lock()
+					w.pub = c
+					w.mu.Unlock()
+					return nil
+				}
+			} else {
+				o.Kind("nopub")
+			}
+			rootOpts = opts
+			rt, err := mfs.NewEmptyRoot(ctx, w.ds, pf, nil, opts...)
 			must(err)
 			w.root = rt
 			nd, err := rt.GetDirectory().VerifUnixfsNode()
@@ -833,7 +954,156 @@ func exec(c vh.Case, o *vh.Out) {
 		viewMustBe := spec // expected view after the op (spec is updated in place by mutating ops)
 		res, extra := "", ""
 		o.Kind(f[0])
+		// Operations that would block on the open file's desclock, or that make a directory above the open
+		// file drop its live children (a directory Flush), are not executed while the descriptor is attached.
+		if w.fd != nil {
+			busy := false
+			switch f[0] {
+			case "write", "trunc", "read":
+				busy = w.fdAtt && eqPath(parsePath(f[1]).comps, w.fdPath)
+			case "flush":
+				busy = w.fdAtt && isPrefix(parsePath(f[1]).comps, w.fdPath)
+			case "mkdir":
+				busy = w.fdAtt && f[3] == "1" && isPrefix(parsePath(f[1]).comps, w.fdPath)
+			case "memfree":
+				busy = w.fdAtt
+			case "reopen", "fdopen":
+				busy = true
+			}
+			if busy {
+				o.Kind("busy-" + f[0])
+				view := emit("busy", "")
+				if view != nil && view.String() != pre.String() {
+					o.Fail("busy-op-changed-tree", "op %d %q", idx, line)
+				}
+				continue
+			}
+		}
+		specFlushUp := func(full bool) {
+			// flushUp of the monitor's descriptor
+			if sfd.clean {
+				return
+			}
+			sfd.clean = true
+			if !sfd.alive {
+				return
+			}
+			if n, cl := spec.walk(sfd.path); cl == "ok" && !n.dir {
+				n.data = append([]byte(nil), sfd.buf...)
+			}
+		}
 		switch f[0] {
+		case "fdopen":
+			p := parsePath(f[1])
+			res = func() string {
+				fsn, err := mfs.Lookup(w.root, f[1])
+				if err != nil {
+					return class(err)
+				}
+				if mfs.IsDir(fsn) || !mfs.IsFile(fsn) {
+					return "isdir"
+				}
+				fi := fsn.(*mfs.File)
+				fd, err := fi.Open(ctx, mfs.Flags{Write: true, Sync: f[2] == "1"})
+				if err != nil {
+					return class(err)
+				}
+				w.fd, w.fdFile, w.fdPath, w.fdAtt = fd, fi, p.comps, true
+				return "ok"
+			}()
+			if n, cl := spec.walk(p.comps); cl != "ok" {
+				wantClass = cl
+			} else if n.dir {
+				wantClass = "isdir"
+			} else {
+				wantClass = "ok"
+				sfd = &specFd{path: p.comps, buf: append([]byte(nil), n.data...), sync: f[2] == "1", alive: true}
+			}
+		case "fdwrite", "fdtrunc", "fdflush", "fdclose":
+			if w.fd == nil {
+				res, wantClass = "nofd", "nofd"
+				break
+			}
+			if sfd == nil {
+				sfd = &specFd{path: w.fdPath}
+			}
+			switch f[0] {
+			case "fdwrite":
+				b := vh.UnHex(f[2])
+				n, err := w.fd.WriteAt(b, int64(vh.Atoi(f[1])))
+				res = class(err)
+				if err == nil && n != len(b) {
+					res = "short-write"
+				}
+				sfd.buf, sfd.clean = writeAt(sfd.buf, vh.Atoi(f[1]), b), false
+			case "fdtrunc":
+				res = class(w.fd.Truncate(int64(vh.Atoi(f[1]))))
+				sfd.buf, sfd.clean = truncTo(sfd.buf, vh.Atoi(f[1])), false
+			case "fdflush":
+				res = class(w.fd.Flush())
+				specFlushUp(true)
+			case "fdclose":
+				res = class(w.fd.Close())
+				specFlushUp(sfd.sync)
+				if w.fdAtt {
+					o.Kind("fdclose-attached")
+				} else {
+					o.Kind("fdclose-detached")
+				}
+				w.fd, w.fdFile, w.fdPath, w.fdAtt = nil, nil, nil, false
+			}
+			wantClass = "ok"
+		case "dmkdir":
+			p := parsePath(f[1])
+			res = func() string {
+				d, err := mfs.Lookup(w.root, f[1])
+				if err != nil {
+					return class(err)
+				}
+				dd, ok := d.(*mfs.Directory)
+				if !ok {
+					return "notdir"
+				}
+				_, err = dd.Mkdir(f[2])
+				return class(err)
+			}()
+			if d, cl := spec.walkDir(p.comps); cl != "ok" {
+				wantClass = cl
+			} else if _, ok := d.kids[f[2]]; ok {
+				wantClass = "exists"
+			} else {
+				d.kids[f[2]] = &node{dir: true, kids: map[string]*node{}}
+				wantClass = "ok"
+			}
+		case "rflush":
+			res, wantClass = class(w.root.Flush()), "ok"
+		case "memfree":
+			res, wantClass = class(w.root.FlushMemFree(ctx)), "ok"
+		case "reopen":
+			// Close the root and load a new one from the root directory's node (an existing DAG)
+			res = func() string {
+				nd, err := w.root.GetDirectory().GetNode()
+				if err != nil {
+					return class(err)
+				}
+				if err := w.root.Close(); err != nil {
+					return "close-" + class(err)
+				}
+				pn, ok := nd.(*dag.ProtoNode)
+				if !ok {
+					return "root-not-protonode"
+				}
+				rt, err := mfs.NewRoot(ctx, w.ds, pn, pf, nil, rootOpts...)
+				if err != nil {
+					return "newroot-" + class(err)
+				}
+				w.root = rt
+				w.mu.Lock()
+				w.pub = nd.Cid()
+				w.mu.Unlock()
+				return "ok"
+			}()
+			wantClass = "ok"
 		case "mkdir":
 			p := parsePath(f[1])
 			parents, flush := f[2] == "1", f[3] == "1"
@@ -866,6 +1136,9 @@ func exec(c vh.Case, o *vh.Out) {
 				return class(dd.Unlink(name))
 			}()
 			wantClass = specRm(spec, p)
+			if wantClass == "ok" && sfd != nil && isPrefix(append(append([]string(nil), dirp...), name), sfd.path) {
+				sfd.alive = false
+			}
 		case "mv":
 			src, dst := parsePath(f[1]), parsePath(f[2])
 			err := mfs.Mv(w.root, f[1], f[2])
@@ -874,6 +1147,11 @@ func exec(c vh.Case, o *vh.Out) {
 			wantClass, final = specMv(spec, src, dst)
 			if res == "intoself" {
 				o.Kind("mv-into-self-refused")
+			}
+			if wantClass == "ok" && sfd != nil && !src.trailing && len(src.comps) > 0 &&
+				(isPrefix(src.comps, sfd.path) || eqPath(final, sfd.path)) {
+				// the open file's entry, or one above it, was moved away / replaced
+				sfd.alive = false
 			}
 			if res == "ok" && wantClass == "ok" {
 				o.Kind("mv-ok")
@@ -980,10 +1258,21 @@ func exec(c vh.Case, o *vh.Out) {
 				if err != nil {
 					return class(err)
 				}
-				b, err := io.ReadAll(fd)
-				if err != nil {
-					fd.Close()
-					return "read-" + class(err)
+				var b []byte
+				if sz, serr := fd.Size(); serr == nil && sz > 0 && idx%2 == 0 {
+					b = make([]byte, sz)
+					n, rerr := fd.CtxReadFull(ctx, b)
+					if rerr != nil && rerr != io.EOF && rerr != io.ErrUnexpectedEOF {
+						fd.Close()
+						return "read-" + class(rerr)
+					}
+					b = b[:n]
+				} else {
+					b, err = io.ReadAll(fd)
+					if err != nil {
+						fd.Close()
+						return "read-" + class(err)
+					}
 				}
 				if err := fd.Close(); err != nil {
 					return "close-" + class(err)
@@ -1005,8 +1294,8 @@ func exec(c vh.Case, o *vh.Out) {
 			w.mu.Lock()
 			pc := w.pub
 			w.mu.Unlock()
-			if res != "ok" {
-				// nothing was waited for: the republisher may still hold newer values
+			if res != "ok" || nopub {
+				// nothing was waited for: the republisher may still hold newer values (or there is none)
 				break
 			}
 			pn, perr := w.readCid(pc)
@@ -1048,8 +1337,16 @@ func exec(c vh.Case, o *vh.Out) {
 					if err != nil {
 						return "mtime-" + class(err)
 					}
+					if got := x.Path(); got != join(p.comps) {
+						o.Fail("dir-path", "Directory.Path() = %q at %q", got, join(p.comps))
+					}
 					return fmt.Sprintf("ok dir %o %s", uint32(m.Perm()), mtStr(mtTok(t)))
 				case *mfs.File:
+					if w.fd == nil {
+						if err := x.Sync(); err != nil {
+							return "sync-" + class(err)
+						}
+					}
 					m, err := x.Mode()
 					if err != nil && !errors.Is(err, ft.ErrNotProtoNode) {
 						return "mode-" + class(err)
@@ -1137,6 +1434,23 @@ func exec(c vh.Case, o *vh.Out) {
 		if view == nil {
 			o.Fail("state-unreadable", "op %d %s", idx, line)
 			continue
+		}
+		if sfd != nil && w.fd != nil && sfd.alive != w.fdAtt {
+			o.Fail("fd-attachment", "op %d %q: descriptor on %s attached=%v, tree semantics alive=%v", idx, line, join(sfd.path), w.fdAtt, sfd.alive)
+			sfd.alive = w.fdAtt
+		}
+		if (f[0] == "fdflush" || f[0] == "fdclose") && sfd != nil {
+			// a flush of the descriptor must not undo a chmod/touch made since it was opened
+			vn, c1 := view.walk(sfd.path)
+			sn, c2 := spec.walk(sfd.path)
+			if sfd.alive && c1 == "ok" && c2 == "ok" && !vn.dir && !sn.dir && string(vn.data) == string(sn.data) &&
+				(vn.mode != sn.mode || (vn.mt == 0) != (sn.mt == 0)) {
+				o.Fail("fd-flush-reverts-metadata", "op %d %q: file %s shows %v, tree semantics give %v", idx, line, join(sfd.path), vn, sn)
+				sn.mode, sn.mt = vn.mode, vn.mt
+			}
+			if f[0] == "fdclose" {
+				sfd = nil
+			}
 		}
 		resClass := strings.SplitN(res, " ", 2)[0]
 		if resClass != "ok" && view.String() != pre.String() {
